@@ -67,7 +67,7 @@ func established(c *FC, key string, wantTrue bool, at ssa.Instruction) bool {
 		if ii.atom.Pol != wantTrue {
 			slot = 1
 		}
-		if edgeEstablished(c.fn, ii.in, slot, at) {
+		if edgeEstablishedAt(c.fn, ii, slot, at) {
 			return true
 		}
 	}
@@ -92,7 +92,7 @@ func runC20(p *Prog, r *Report, tier string) {
 	}
 	r.floor("entry-points", len(entries), 25+19+8)
 	reach := p.reachableFrom(entries)
-	r.floor("reachable-functions", len(reach), 90)
+	r.floor("reachable-functions", len(reach), 80)
 	plens := p.parseFieldLens()
 	r.floor("parse-field-widths", len(plens), 6)
 
@@ -190,7 +190,7 @@ func runC20(p *Prog, r *Report, tier string) {
 		r.check(bad == "", "P-deref", "P-deref/query/"+q.Name, p.pos(q.Fn.Pos()), fmt.Sprintf("%d request dereferences, all behind req != nil", len(derefs)),
 			"query "+q.Name+" dereferences its request at "+bad+" without a dominating `req != nil`")
 	}
-	r.floor("queries-dereferencing-request", nq, 10)
+	r.floor("queries-dereferencing-request", nq, 8)
 
 	// ---- dereference of (pointer, error) results of module calls
 	nd := 0
@@ -357,22 +357,59 @@ func dischargeRolePanic(p *Prog, r *Report, c *FC, s panicSite, key string) {
 		"(keeper.Keeper).GetPauser":          {"raw:pauser", "k.SetPauser"},
 		"(keeper.Keeper).GetTokenController": {"raw:token-controller", "k.SetTokenController"},
 	}
-	row, ok := getters[funcName(s.Fn)]
-	if !ok {
+	// the getter itself, or a NEW helper every caller of which is a role getter (the slot key
+	// is then the helper's parameter and the region is resolved per caller)
+	var rows [][2]string
+	var owners []*ssa.Function
+	if row, ok := getters[funcName(s.Fn)]; ok {
+		rows, owners = append(rows, row), append(owners, s.Fn)
+	} else if p.newHelper(s.Fn) {
+		for caller := range p.callersOf(s.Fn) {
+			row, ok := getters[funcName(caller)]
+			if !ok {
+				rows = nil
+				break
+			}
+			rows, owners = append(rows, row), append(owners, caller)
+		}
+	}
+	if len(rows) == 0 {
 		r.fail("P-site", key, pos, "explicit panic reachable from an entry point: "+s.Desc)
 		return
 	}
+	for i, row := range rows {
+		dischargeRolePanicRow(p, r, c, s, key+map[bool]string{true: "", false: "/" + funcName(owners[i])}[owners[i] == s.Fn], row, owners[i])
+	}
+}
+
+func dischargeRolePanicRow(p *Prog, r *Report, c *FC, s panicSite, key string, row [2]string, owner *ssa.Function) {
+	pos := p.instrPos(s.In)
 	region := row[0]
-	// only when absent
+	// only when absent: the single store read of the panicking function, which (seen from the getter) reads the role's slot
 	var get *Effect
+	nR := 0
 	for _, e := range p.effects(s.Fn).direct {
-		if e.Kind == "R" && e.Region == region {
+		if e.Kind == "R" {
 			e := e
 			get = &e
+			nR++
+		}
+	}
+	ownReads := 0
+	for _, e := range p.closure(owner) {
+		switch e.Kind {
+		case "R":
+			if e.Region == region {
+				ownReads++
+			} else {
+				ownReads = -100
+			}
+		case "ITER", "PAGE", "ESCAPE":
+			ownReads = -100
 		}
 	}
 	absentOnly := false
-	if get != nil {
+	if get != nil && nR == 1 && ownReads == 1 {
 		t := c.x.Of(get.In.(ssa.Value), get.In).String()
 		absentOnly = established(c, "(nil == "+t+")", true, s.In) || established(c, "("+t+" == nil)", true, s.In)
 	}
@@ -441,7 +478,7 @@ func checkIntTypestate(p *Prog, r *Report, reach map[*ssa.Function]bool, fc func
 			}
 		}
 	}
-	r.floor("nilable-int-sources", len(work), 4)
+	r.floor("nilable-int-sources", len(work), 3)
 	nUses := 0
 	for len(work) > 0 {
 		s := work[0]
